@@ -14,5 +14,6 @@ pub mod rng;
 pub mod vqdev;
 pub mod xport_mmio;
 pub mod xport_model;
+pub mod xport_pci;
 
 pub mod checks;
